@@ -194,6 +194,25 @@ def body_getblock(text: str, blk: int) -> bool:
     return True
 
 
+def body_subject(subj: str, maildir: bool) -> bool:
+    """Mail subjects become entry names (menu lines, HTML): whitespace runs collapse to one blank, so no
+    CR/LF/TAB survives; an empty subject gets a placeholder."""
+    from pygopherd.handlers import mbox
+
+    cfg = hx.DictConfig(True)
+    H = mbox.MaildirMessageHandler if maildir else mbox.MBoxMessageHandler
+    vfs = hx.ns(stat=lambda s: (0o100644, 0, 0, 1, 0, 0, 1, 0, 0, 0), isreal=lambda: True)
+    h = H("/box|/MBOX-MESSAGE/1", "", None, cfg, None, vfs)
+    msg = hx.ns(get=lambda k, d=None: subj)
+    e = h.getentry(msg)
+    hx.reach()
+    name = e.getname()
+    hx.require(name is not None and name != "", "C13:empty-entry-name-from-subject", lambda: repr(subj))
+    for ch in name:
+        hx.require(ch != "\r" and ch != "\n" and ch != "\t", "C13:control-character-in-entry-name", lambda: "subject=%r name=%r" % (subj, name))
+    return True
+
+
 def obligations(tier, seed):
     obs = []
     n = 2 if tier == "quick" else 3
@@ -217,6 +236,9 @@ def obligations(tier, seed):
     obs.append(Ob(id="C13.1-waptext", body="harness.C13:body_waptext", sig="l1: str, l2: str", pre=["len(l1) <= 2", "len(l2) <= %d" % (0 if tier == "quick" else 2), "all(c in '<>&' + chr(34) + ' a' for c in l1 + l2)"],
                   timeout=300 if tier == "quick" else 1200, desc="WAP text-to-WML conversion of two symbolic lines: no payload-controlled markup",
                   bounds="2 lines, |l| <= 2 over {< > & \" SPACE a}", functions=["protocols.wap.WAPProtocol.handlerwrite"]))
+    obs.append(Ob(id="C13.5-subject", body="harness.C13:body_subject", sig="subj: str, maildir: bool", pre=["len(subj) <= %d" % (3 if tier == "quick" else 4), "all(c in 'a ' + chr(9) + chr(10) + chr(13) for c in subj)"],
+                  timeout=300, desc="mail subjects used as entry names contain no CR/LF/TAB (they would break menu lines) and are never empty",
+                  bounds="|subject| <= %d over {a SPACE TAB LF CR}" % (3 if tier == "quick" else 4), functions=["handlers.mbox.MessageHandler.getentry"]))
     for blk in range(4):
         obs.append(Ob(id="C13.4-getblock[%s]" % ["ABSTRACT", "KEYWORDS", "ASK", "3D"][blk], body="harness.C13:body_getblock", sig="text: str, blk: int",
                       pre=["blk == %d" % blk, "len(text) <= %d" % (3 if tier == "quick" else 4), "all(c in '+: a' + chr(13) + chr(10) for c in text)"], timeout=300 if tier == "quick" else 1200,
